@@ -82,6 +82,15 @@ def ev(e, env):
         return env.get(e[2])
     if k == "phi":
         return env.get(("phi", e[1]))
+    if k == "bin" and e[1] == "and" and e[3][0] == "c":
+        v = ev(e[2], env)
+        if v is None:
+            return None
+        if v[0] == "c":
+            return ("c", v[1] & e[3][1])
+        if _is_other(v) and 0 <= e[3][1] < 8 and env.get("__aligned__"):
+            return ("c", 0)          # OTHER stands for the address of a node: at least 8-byte aligned
+        return None
     if k == "bin" and e[1] == "xor" and e[3] == ("c", -1):
         v = ev(e[2], env)
         if v in (("c", 0), ("c", 1)):
@@ -131,7 +140,7 @@ def truth(a, env):
     return v != ("c", 0)
 
 
-def table(f, extra=None):
+def table(f, extra=None, aligned=False):
     """-> (load ids in program order, {assignment tuple: sorted list of return classes}), where a return class is
     ('c', k), ('load', id), an addr/arg expression, or None for 'no value'"""
     cases = paths.ret_cases(f)
@@ -150,6 +159,8 @@ def table(f, extra=None):
     out = {}
     for asg in itertools.product(*doms):
         env = dict(zip(lids, asg))
+        if aligned:
+            env["__aligned__"] = True
         rets = set()
         for _p, atoms, v in cases:
             ok = True
@@ -177,11 +188,11 @@ def table(f, extra=None):
     return lids, out
 
 
-def normalized(f, extra=None):
+def normalized(f, extra=None, aligned=False):
     """{tuple of classes (args first, then loads in program order): frozenset of outcomes}; classes and outcomes are
     ints (constants), 'SELF' (an argument / address the word is compared with), 'X' (anything else); an outcome
     'V<k>' is the value of variable k itself, 'ADDR' an address computed from the arguments"""
-    lids, t = table(f, extra)
+    lids, t = table(f, extra, aligned)
     pos = {l: k for k, l in enumerate(lids)}
 
     def ncls(c):
@@ -228,15 +239,15 @@ def normalized(f, extra=None):
     return lids, out
 
 
-def compare(rep, rule, inst, f, expected, what):
+def compare(rep, rule, inst, f, expected, what, aligned=False):
     """expected: {class tuple: set of outcomes}.  Shape mismatch (different variables) => Broken (inconclusive)."""
     rep.touch(f)
     nvar = len(next(iter(expected)))
-    lids0, _ = normalized(f)          # first pass: which variables survive the projection of assertion guards
+    lids0, _ = normalized(f, None, aligned)          # first pass: which variables survive the projection of assertion guards
     if len(lids0) != nvar:
         raise Broken("%s: %s has %d decision variables, specification has %d: table not comparable" % (inst, f.name, len(lids0), nvar))
     extra = {lids0[i]: sorted(set(k[i] for k in expected if isinstance(k[i], int))) for i in range(nvar)}
-    lids, got = normalized(f, extra)
+    lids, got = normalized(f, extra, aligned)
     if set(got) != set(expected):
         raise Broken("%s: decision variables of %s changed (%d cases, expected %d): table not comparable" % (inst, f.name, len(got), len(expected)))
     bad = [(k, got[k], frozenset(expected[k])) for k in sorted(got, key=str) if got[k] != frozenset(expected[k])]
